@@ -42,3 +42,58 @@ Proof. split; reflexivity. Qed.
 Example C10_ex_empty :
   data (ndx_reduce Z.mul 1%Z {| shape := [2; 0]; data := [] |} (AxInt 1%Z) false 0%Z) = [1; 1]%Z.
 Proof. reflexivity. Qed.
+
+(* ---- all / any: the counting trick is NumPy's conjunction / disjunction ------------------------ *)
+(* all(x) = equal(sum(equal(x, 0).astype(int64)), 0) and any(x) = not_equal(sum(not_equal(x, 0)...), 0) as
+   written, for every tensor of every rank and extent (empty reductions included), every valid axis form *)
+From ND Require Import Ndx.ReduceMore Ndx.ReduceMoreFacts Ndx.GetItem.
+Theorem C10_all_equals_numpy : forall (t : tensor Z) axis keep, axis_valid (length (shape t)) axis ->
+  ndx_all t axis keep = np_all t axis keep.
+Proof. exact ndx_all_is_np_all. Qed.
+Theorem C10_any_equals_numpy : forall (t : tensor Z) axis keep, axis_valid (length (shape t)) axis ->
+  ndx_any t axis keep = np_any t axis keep.
+Proof. exact ndx_any_is_np_any. Qed.
+Print Assumptions C10_all_equals_numpy.
+Print Assumptions C10_any_equals_numpy.
+
+(* ---- argmax / argmin: first occurrence of the extremum, any rank --------------------------------- *)
+Theorem C10_argmax_first_occurrence : forall (t : tensor Z) ax oidx,
+  0 < nth ax (shape t) 0 -> in_bounds (remove_nth ax (shape t)) oidx ->
+  let n := nth ax (shape t) 0 in
+  let i := Z.to_nat (get (onnx_arg true t ax false) oidx 0%Z) in
+  let at_ k := get t (insert_nth ax k oidx) 0%Z in
+  i < n /\ (forall j, j < n -> (at_ j <= at_ i)%Z) /\ (forall j, j < i -> (at_ j < at_ i)%Z).
+Proof. exact onnx_argmax_spec. Qed.
+Theorem C10_argmin_first_occurrence : forall (t : tensor Z) ax oidx,
+  0 < nth ax (shape t) 0 -> in_bounds (remove_nth ax (shape t)) oidx ->
+  let n := nth ax (shape t) 0 in
+  let i := Z.to_nat (get (onnx_arg false t ax false) oidx 0%Z) in
+  let at_ k := get t (insert_nth ax k oidx) 0%Z in
+  i < n /\ (forall j, j < n -> (at_ i <= at_ j)%Z) /\ (forall j, j < i -> (at_ i < at_ j)%Z).
+Proof. exact onnx_argmin_spec. Qed.
+(* axis=None (flatten, reduce, reshape): the row-major position of the first maximum *)
+Theorem C10_argmax_axis_none : forall (t : tensor Z) keep r, wf t -> ndx_arg true t None keep = Done r ->
+  let i := Z.to_nat (nth 0 (data r) 0%Z) in
+  i < length (data t) /\ (forall j, j < length (data t) -> (nth j (data t) 0 <= nth i (data t) 0)%Z)
+  /\ (forall j, j < i -> (nth j (data t) 0 < nth i (data t) 0)%Z).
+Proof. exact ndx_argmax_flat. Qed.
+Print Assumptions C10_argmax_first_occurrence.
+Print Assumptions C10_argmax_axis_none.
+
+(* ---- cumulative_sum: prefix sums along the axis, any rank ------------------------------------------ *)
+Theorem C10_cumulative_sum_is_prefix_sum : forall (t : tensor Z) ax idx, ax < length (shape t) -> in_bounds (shape t) idx ->
+  get (onnx_cumsum t ax) idx 0%Z = zsum (map (fun i => get t (replace_nth ax i idx) 0%Z) (seq 0 (S (nth ax idx 0)))).
+Proof. exact onnx_cumsum_spec. Qed.
+Print Assumptions C10_cumulative_sum_is_prefix_sum.
+
+Example C10_ex_all : data (ndx_all {| shape := [2; 2]; data := [1; 0; 3; 4]%Z |} (AxInt 1%Z) false) = [false; true]
+  /\ data (ndx_all {| shape := [0; 2]; data := [] |} (AxInt 0%Z) false) = [true; true]
+  /\ data (ndx_any {| shape := [0; 2]; data := [] |} (AxInt 0%Z) true) = [false; false].
+Proof. repeat split; reflexivity. Qed.
+Example C10_ex_argmax : ndx_arg true {| shape := [2; 3]; data := [3; 1; 3; 0; 5; 5]%Z |} (Some (-1)%Z) true
+  = Done {| shape := [2; 1]; data := [0; 1]%Z |}
+  /\ ndx_arg false {| shape := [2; 3]; data := [3; 1; 3; 0; 5; 5]%Z |} None false = Done {| shape := []; data := [3%Z] |}.
+Proof. split; reflexivity. Qed.
+Example C10_ex_cumsum : ndx_cumsum {| shape := [2; 3]; data := [3; 1; 3; 0; 5; 5]%Z |} (Some (-1)%Z) true
+  = Done {| shape := [2; 4]; data := [0; 3; 4; 7; 0; 0; 5; 10]%Z |}.
+Proof. reflexivity. Qed.
